@@ -1,7 +1,7 @@
 #!/usr/bin/env python3
 """Self-test of the checks: fire on broken variants, stay silent on equivalent ones.
 
-  selftest/run.py [--props C01,C07] [--kinds seeded,mutants,refactors] [--json out.json] [--repo /repo] [-j N] [--all-props]
+  selftest/run.py [--props C01,C07] [--kinds seeded,mutants,refactors] [--json out.json] [--repo /repo] [-j N] [--all-props [--under C08,C09]]
 
 For every fixture a scratch copy of the repository's working tree is made under $TMPDIR
 (never inside /repo or /verif), the patch is applied to the copy, the *static* check of
@@ -69,6 +69,9 @@ def fixtures(kinds, props):
     return out
 
 
+ONLY_PROPS = None  # --under C08,C09: with --all-props, run the rewrites under these properties only (after a rule edit)
+
+
 def run_one(fx, repo):
     scratch = tempfile.mkdtemp(prefix="yardlself.")
     try:
@@ -86,6 +89,8 @@ def run_one(fx, repo):
             alarms = []
             for n in range(1, 21):
                 p = "C%02d" % n
+                if ONLY_PROPS and p not in ONLY_PROPS:
+                    continue
                 r = subprocess.run([os.path.join(ROOT, "check"), p, "quick", "--repo", dst], env=env, capture_output=True, text=True)
                 if r.returncode != 0 or any(l.startswith("VIOLATION ") for l in r.stdout.splitlines()):
                     alarms += ["%s:%s" % (p, m.group(1)) for m in re.finditer(r"^(?:VIOLATED|UNDECIDED): (\S+)", r.stdout, re.M)] or [p + ":exit%d" % r.returncode]
@@ -107,7 +112,7 @@ def run_one(fx, repo):
 
 
 def main():
-    global ROOT
+    global ROOT, ONLY_PROPS
     args = sys.argv[1:]
     props, kinds, out_json, repo, jobs = None, {"seeded", "mutants", "refactors"}, None, "/repo", 8
     all_props = False
@@ -128,6 +133,9 @@ def main():
             repo = args[i]
         elif args[i] == "--all-props":
             all_props = True
+        elif args[i] == "--under":
+            i += 1
+            ONLY_PROPS = set(args[i].split(","))
         elif args[i] == "--match":
             i += 1
             match = args[i]
@@ -177,7 +185,7 @@ def main():
                 r["result"] = "LIMIT"
     bad = 0
     for r in results:
-        line = "%-9s %-28s %-4s %-11s %s" % (r["kind"], r["id"], r["prop"], r["result"], " ".join(r.get("fired", []))[:160])
+        line = "%-9s %-28s %-4s %-11s %s" % (r["kind"], r["id"], r["prop"], r["result"], " ".join(r.get("fired", []))[:(40000 if r["result"] == "FALSE-ALARM" else 160)])
         print(line)
         if r["result"] in ("MISSED", "FALSE-ALARM") and r.get("own", True):
             bad += 1
